@@ -255,7 +255,8 @@ def scenarios(tier: str) -> tuple[list[C06Scenario], list[C06Scenario]]:
                 deep.append(sc)
     # F2: daemons and a sleeping timer
     for reaction, backoff, timeout in list(itertools.product(['obeys', 'cancel', 'ignore'], [None, 2.0], [None, 3.0])) + \
-            [('cancel', 3.0, 2.0), ('ignore', 3.0, 2.0), ('cancel', 2.0, 2.0)]:      # + a backoff not shorter than the timeout
+            [('cancel', 3.0, 2.0), ('ignore', 3.0, 2.0), ('cancel', 2.0, 2.0),      # + a backoff not shorter than the timeout
+             ('ignore', 2.0, 0.0), ('ignore', None, 0.0), ('cancel', 0.0, 3.0), ('ignore', 0.0, 0.0)]:    # + zero: "give up at once" / "no grace"
         for exit_delay, d1 in itertools.product((0.0, 1.0) if reaction != 'ignore' else (0.0,), (None, ['ok'], ['temp', 'ok'])):
             handlers = [dict(id='dm', on='daemon', reaction=reaction, exit_delay=exit_delay,
                              cancellation_backoff=backoff, cancellation_timeout=timeout)]
